@@ -14,9 +14,9 @@ from vlib.core import Info, SubCheck, Violation, require
 PROPERTY = "C02"
 LEVEL = "exploration"
 RULE = (
-    "histories: model-based operation sequences (seek_set, seek_cur, cread in-range, cread past-the-end, "
+    "histories: model-based operation sequences (seek_set, seek_cur, seeks to within a few bytes of a file boundary, small backward relative seeks, cread in-range, cread past-the-end, "
     "creadinto incl. reaching end-of-stream) of length <=30 (quick) / 60 (thorough) over streams of 1-3 files, all "
-    "depths, differing header lengths, optionally ragged 8-bit data sections and empty middle files, compared after "
+    "depths, differing header lengths, data sections both smaller and larger than the headers, optionally ragged 8-bit data sections and empty middle files, compared after "
     "every operation with a bytes model (returned values, byte counts, cur_data_pos_stream); short_sweep: ALL "
     "operation sequences of length <=2 (quick) / <=3 (thorough) on a 2-file stream with 2+3 data bytes and on a "
     "3-file 1+0+2 stream; read_block: ALL (start,nsamps>=1) with -2<=start, start+nsamps<=N+2 on generated streams. "
@@ -128,6 +128,25 @@ class Machine:
         kind = op["op"]
         x = op.get("x", 0)
         concrete = op.get("abs", False)
+        if kind == "seek_near":
+            # absolute seek to within a few bytes of a file boundary (or of the ends of the stream)
+            marks = [0] + [int(b) for b in self.bounds] + [self.total - 1]
+            o = marks[x % len(marks)] + ((x // 7) % 25 - 12) * self.item
+            o = min(max(o, 0), self.total - 1)
+            o -= o % self.item
+            kind = "seek_set"
+            concrete = True
+            x = o
+        if kind == "seek_back":
+            # small backward relative seek (a few items up to a few hundred bytes: less than a header length)
+            if self.pos is None or self.pos == 0:
+                return False
+            step = (1 + x % 40) * self.item if x % 3 else (1 + x % 300)
+            step -= step % self.item
+            step = max(self.item, min(step, self.pos))
+            kind = "seek_cur"
+            concrete = True
+            x = -step
         if kind == "seek_set":
             o = x if concrete else x % self.total
             self.trace.append(("seek_set", o))
@@ -237,7 +256,7 @@ def run_history(case, ctx):
         for op in case["ops"]:
             if m.pos is None:
                 # position unspecified after a failed read: must re-seek first
-                if op["op"] != "seek_set":
+                if op["op"] not in ("seek_set", "seek_near"):
                     continue
             m.step(op)
         flags = set(m.flags)
@@ -256,7 +275,8 @@ def run_history(case, ctx):
 def stream_spec(draw, max_samples_per_file=6):
     nbits = draw(st.sampled_from(vs.DEPTHS_ALL))
     unit = vs.chan_unit(nbits)
-    nchans = unit * draw(st.integers(1, 3))
+    big = draw(st.integers(0, 2)) == 0  # data sections larger than the ~250-byte headers
+    nchans = unit * (draw(st.integers(40, 96)) if big else draw(st.integers(1, 3)))
     samp_bytes = nchans * nbits // 8
     nfiles = draw(st.integers(1, 3))
     ragged = nbits == 8 and draw(st.integers(0, 4)) == 0
@@ -276,6 +296,8 @@ def op_strategy():
     return st.one_of(
         st.fixed_dictionaries({"op": st.just("seek_set"), "x": x}),
         st.fixed_dictionaries({"op": st.just("seek_cur"), "x": x}),
+        st.fixed_dictionaries({"op": st.just("seek_near"), "x": x}),
+        st.fixed_dictionaries({"op": st.just("seek_back"), "x": x}),
         st.fixed_dictionaries({"op": st.just("cread"), "x": x}),
         st.fixed_dictionaries({"op": st.just("cread"), "x": x}),
         st.fixed_dictionaries({"op": st.just("creadinto"), "x": x}),
